@@ -12,7 +12,7 @@ import z3
 from . import loader, contract as C
 from .stmt import Iter
 from .calls import KwArgs
-from .values import (Sym, SV, SList, SSet, SOpt, FuncRef, ModuleRef, ClassRef, Opaque, Unsupported, TInt, TBool, TStr,
+from .values import (SDict, Sym, SV, SList, SSet, SOpt, FuncRef, ModuleRef, ClassRef, Opaque, Unsupported, TInt, TBool, TStr,
                      TNet, TNone, TObj, TList, TSet, TOpt, TTuple, TBV, Net, fresh, fresh_name, type_constraints,
                      type_of, to_term, wrap, sort_of, is_concrete, list_from_concrete, BVW, BIT, BitStr, BitChar,
                      netmask_of, POW2, TBIT, IP_OK, IP_PARSE, WS_LEN, WS_ARR)
@@ -321,6 +321,19 @@ class BuiltinMixin:
                 default = args[1] if len(args) > 1 else None
                 return recv.d.get(key, default)
             raise Unsupported(f"kwargs.{name}")
+        if isinstance(recv, SDict):
+            if name == "items" and recv.keys is not None:
+                ks = recv.keys
+                return Iter(("indexed", ks.n, lambda k: (wrap(recv.kty, ks.a[k]), wrap(recv.vty, recv.map[ks.a[k]]))))
+            if name == "get":
+                k = to_term(args[0])
+                default = args[1] if len(args) > 1 else None
+                if default is None:
+                    return SOpt(recv.vty, z3.Not(recv.dom[k]), wrap(recv.vty, recv.map[k]))
+                return wrap(recv.vty, z3.If(recv.dom[k], recv.map[k], to_term(default)))
+            if name == "copy":
+                return recv
+            raise Unsupported(f"dict.{name} on a symbolic dict")
         if isinstance(recv, dict):
             return self.dict_method(recv, name, args, kwargs, st, node)
         if isinstance(recv, (str,)) or (isinstance(recv, SV) and recv.ty is TStr):
